@@ -117,19 +117,22 @@ def make_graphs(job, N):
     g = ra.AsyncGraph(N, N[cfg["sup"]], clock=const.Clock.SIMULATED, real_time_factor=const.RealTimeFactor.FAST_AS_POSSIBLE)
     g.set_record_settings(params=True, rng=True, inputs=True, state=True, output=True)
     gs0 = g.init(jax.random.PRNGKey(job.get("seed", 0))); g.warmup(gs0, jit_step=False)
-    eps = []; canon = []; inits = []
+    eps = []; canon = []; inits = []; rng_inits = []
     steps = job["steps"]
     for ei in range(job.get("episodes", 2)):
         del HOSTLOG[:]
         gs = gs0.replace(eps=jnp.array(ei, dtype=jnp.int32))
-        inits.append({n: [int(x) for x in aw.rngwords(gs0.rng[n])[0][:2]] for n in N})
+        if job.get("vary_eps_rng"):      # every episode starts from its own rng: an episode replayed with another episode's slice is then told apart
+            gs = gs.replace(rng=FrozenDict({n: jax.random.fold_in(gs0.rng[n], ei) for n in N}))
+        rng_inits.append(gs.rng)
+        inits.append({n: [int(x) for x in aw.rngwords(gs.rng[n])[0][:2]] for n in N})
         gs, ss = g.reset(gs)
         for i in range(steps[ei] if isinstance(steps, list) else steps): gs, ss = g.step(gs)
         g.stop()
         r = g.get_record()
         eps.append(r); canon.append(aw.canon_record(cfg, r, dict(rng=True, inputs=True, state=True, output=True)))
     exp = base.ExperimentRecord(episodes=eps)
-    return exp.to_graph(), dict(records=canon, gs0=gs0, inits=inits)
+    return exp.to_graph(), dict(records=canon, gs0=gs0, inits=inits, rng_inits=rng_inits)
 
 
 def reshape_graph(cg, cfg, spec, seed):
@@ -256,7 +259,7 @@ def run_job(job):
         del HOSTLOG[:]
         gs = G.init(jax.random.PRNGKey(job.get("seed", 0)), starting_eps=e, starting_step=p0)
         if asyncinfo and job.get("replay_rng", True):
-            gs = gs.replace(rng=FrozenDict({n: asyncinfo["gs0"].rng[n] for n in names}))
+            gs = gs.replace(rng=FrozenDict({n: asyncinfo["rng_inits"][e][n] for n in names}))
             if cfg.get("adaptive_params") or cfg.get("rng_params"):      # the replay starts from the recorded episode's initial params as well
                 gs = gs.replace(params=FrozenDict({n: asyncinfo["gs0"].params[n] for n in names}))
         ep = dict()
@@ -422,6 +425,12 @@ def run_c10(job):
         except Exception as ex:  # noqa
             r["trainable_error"] = f"{type(ex).__name__}:{str(ex)[:200]}"
         P.override = {}
+        # (a0) trainable, nothing configured by the user: the default init_delays() reports the delay the distribution CARRIES (the one it was created
+        # with) - the connection's declared expected delay (delay=..., used for the phase) is a different quantity
+        if d == job.get("create_at", mn):
+            try: r["trainable_default"] = record_of(GT, rollT, jax.random.PRNGKey(1))
+            except Exception as ex:  # noqa
+                r["trainable_error"] = f"{type(ex).__name__}:{str(ex)[:200]}"
         # (a') trainable, delay given through the distribution itself (only inside [min, max]: create() asserts the range)
         if mn <= d <= mx and job.get("via_dist", True):
             gs = GT.init(jax.random.PRNGKey(1))
